@@ -170,7 +170,8 @@ small_free_memory_list::small_free_memory_list(small_free_memory_list&& other) n
   alloc_chunk_(&base_),
   dealloc_chunk_(&base_)
 {
-    if (!other.empty())
+    // note: check for chunks, not for free nodes; a list whose nodes are all allocated still owns its chunks
+    if (other.base_.next != &other.base_)
     {
         base_.next             = other.base_.next;
         base_.prev             = other.base_.prev;
@@ -193,7 +194,11 @@ void foonathan::memory::detail::swap(small_free_memory_list& a, small_free_memor
     auto b_next = b.base_.next;
     auto b_prev = b.base_.prev;
 
-    if (!a.empty())
+    // note: check for chunks, not for free nodes
+    auto a_has_chunks = a.base_.next != &a.base_;
+    auto b_has_chunks = b_next != &b.base_;
+
+    if (a_has_chunks)
     {
         b.base_.next       = a.base_.next;
         b.base_.prev       = a.base_.prev;
@@ -206,7 +211,7 @@ void foonathan::memory::detail::swap(small_free_memory_list& a, small_free_memor
         b.base_.prev = &b.base_;
     }
 
-    if (!b.empty())
+    if (b_has_chunks)
     {
         a.base_.next       = b_next;
         a.base_.prev       = b_prev;
